@@ -5,8 +5,12 @@
  *   clock_gettime()/gettimeofday()/time() -> simulated clock: VERIF_CLOCK_BASE seconds, +1us per call
  *                                (only when VERIF_CLOCK_BASE is set; otherwise the real clock)
  *   getpid()                  -> VERIF_FAKE_PID (if set)
- * Every call is counted; the counts are printed to stderr at exit when VERIF_SHIM_REPORT=1,
- * so a run can tell whether the system under simulation ever consulted them.
+ *   getenv()/secure_getenv()  -> passed through, but the names asked for are recorded
+ * Calls are counted from the moment the process asks for the variable VERIF_MARK_START (the
+ * session does that right before its first request, so loader / libc / runtime start-up noise
+ * is excluded); the counts and the names are printed to stderr at exit when VERIF_SHIM_REPORT=1,
+ * so a run can tell whether the system under simulation ever consulted these seams, and the
+ * simulator can give seeded values to exactly the variables the code reads.
  */
 #define _GNU_SOURCE
 #include <stdint.h>
@@ -28,12 +32,19 @@ static uint64_t clock_ticks = 0;
 static uint64_t clock_base = 1700000000ULL;
 static long fake_pid = 0;
 static int clock_on = 0;
-static unsigned long n_getrandom = 0, n_clock = 0, n_pid = 0;
+static unsigned long n_getrandom = 0, n_clock = 0, n_pid = 0, n_getenv = 0;
+static int marked = 0;
+#define MAX_NAMES 64
+static char names[MAX_NAMES][64];
+static int n_names = 0;
 
 static void report(void) {
     const char *r = getenv("VERIF_SHIM_REPORT");
-    if (r && r[0] == '1')
-        fprintf(stderr, "VERIF_SHIM getrandom=%lu clock=%lu getpid=%lu\n", n_getrandom, n_clock, n_pid);
+    if (r && r[0] == '1') {
+        fprintf(stderr, "VERIF_SHIM getrandom=%lu clock=%lu getpid=%lu getenv=%lu names=", n_getrandom, n_clock, n_pid, n_getenv);
+        for (int i = 0; i < n_names; i++) fprintf(stderr, "%s%s", i ? "," : "", names[i]);
+        fprintf(stderr, "\n");
+    }
 }
 
 static void init_locked(void) {
@@ -49,6 +60,12 @@ static void init_locked(void) {
     atexit(report);
 }
 
+__attribute__((constructor)) static void shim_loaded(void) {
+    pthread_mutex_lock(&mu);
+    init_locked();
+    pthread_mutex_unlock(&mu);
+}
+
 static uint64_t next_locked(void) {
     state += 0x9E3779B97F4A7C15ULL;
     uint64_t z = state;
@@ -61,7 +78,7 @@ ssize_t getrandom(void *buf, size_t len, unsigned int flags) {
     (void)flags;
     pthread_mutex_lock(&mu);
     init_locked();
-    n_getrandom++;
+    if (marked) n_getrandom++;
     unsigned char *p = (unsigned char *)buf;
     size_t i = 0;
     while (i < len) {
@@ -81,7 +98,7 @@ int getentropy(void *buf, size_t len) {
 static void sim_now(uint64_t *sec, uint64_t *nsec) {
     pthread_mutex_lock(&mu);
     init_locked();
-    n_clock++;
+    if (marked) n_clock++;
     clock_ticks++;
     *sec = clock_base + clock_ticks / 1000000ULL;
     *nsec = (clock_ticks % 1000000ULL) * 1000ULL;
@@ -92,6 +109,7 @@ static int clock_enabled(void) {
     pthread_mutex_lock(&mu);
     init_locked();
     int on = clock_on;
+    if (marked && !on) n_clock++;
     pthread_mutex_unlock(&mu);
     return on;
 }
@@ -123,9 +141,34 @@ time_t time(time_t *t) {
 pid_t getpid(void) {
     pthread_mutex_lock(&mu);
     init_locked();
-    n_pid++;
+    if (marked) n_pid++;
     long p = fake_pid;
     pthread_mutex_unlock(&mu);
     if (p) return (pid_t)p;
     return (pid_t)syscall(SYS_getpid);
 }
+
+static char *(*real_getenv)(const char *) = 0;
+
+static char *env_seam(const char *name) {
+    if (!real_getenv) real_getenv = (char *(*)(const char *))dlsym(RTLD_NEXT, "getenv");
+    if (!real_getenv) return 0;
+    if (name && strcmp(name, "VERIF_MARK_START") == 0) {
+        pthread_mutex_lock(&mu);
+        marked = 1;
+        pthread_mutex_unlock(&mu);
+        return 0;
+    }
+    if (name && marked && strncmp(name, "VERIF_", 6) != 0) {
+        pthread_mutex_lock(&mu);
+        n_getenv++;
+        int known = 0;
+        for (int i = 0; i < n_names; i++) if (strncmp(names[i], name, 63) == 0) { known = 1; break; }
+        if (!known && n_names < MAX_NAMES) { strncpy(names[n_names], name, 63); names[n_names][63] = 0; n_names++; }
+        pthread_mutex_unlock(&mu);
+    }
+    return real_getenv(name);
+}
+
+char *getenv(const char *name) { return env_seam(name); }
+char *secure_getenv(const char *name) { return env_seam(name); }
